@@ -577,3 +577,94 @@ def td_verify(case, rp):
                             found_by='bounded native search (%d cases)' % n)
     return dict(confirmed=False, detail='model did not reproduce; %d native '
                 'cases hold' % n)
+
+
+# ------------------------------------------------------------------------------
+# C20
+#
+def mk_worker(rp, cores, gpus):
+    import threading as mt
+    from radical.pilot.raptor.worker_default import DefaultWorker
+    w = object.__new__(DefaultWorker)
+    w._log, w._prof = Stub(), Stub()
+    w._rlock = mt.RLock()
+    w._res_evt = mt.Event()
+    w._resources = {'cores': list(cores), 'gpus': list(gpus)}
+    w._n_cores, w._n_gpus = len(cores), len(gpus)
+    return w
+
+
+def check_alloc(rp, cores, gpus, task):
+    w = mk_worker(rp, cores, gpus)
+    t = copy.deepcopy(task)
+    want_c, want_g = t.get('cores', 1), t.get('gpus', 0)
+    try:
+        ok = w._alloc(t)
+    except AssertionError:
+        if want_c < 1 or want_c > len(cores) or want_g > len(gpus):
+            return []
+        return ['AssertionError for a legal request %r' % task]
+    except Exception as e:
+        return ['raised %r' % e]
+    probs = []
+    rc, rg = w._resources['cores'], w._resources['gpus']
+    if not ok:
+        if rc != list(cores) or rg != list(gpus) or 'slots' in t:
+            probs.append('refused but state changed')
+        if want_c <= cores.count(0) and want_g <= gpus.count(0):
+            probs.append('refused although %d cores / %d gpus are free'
+                         % (cores.count(0), gpus.count(0)))
+        return probs
+    s = t['slots'][0]
+    for name, idx, old, new, want in (('core', s['cores'], cores, rc, want_c),
+                                      ('gpu', s['gpus'], gpus, rg, want_g)):
+        if len(idx) != want: probs.append('%d %ss granted, %d requested' % (len(idx), name, want))
+        if len(set(idx)) != len(idx): probs.append('%s granted twice: %s' % (name, idx))
+        for i in idx:
+            if old[i] != 0: probs.append('%s %d was already held' % (name, i))
+            if new[i] != 1: probs.append('%s %d not marked held' % (name, i))
+        for i in range(len(old)):
+            if i not in idx and new[i] != old[i]:
+                probs.append('%s %d changed but was not granted' % (name, i))
+    # giving back restores the vector
+    try:
+        w._dealloc(t)
+    except Exception as e:
+        probs.append('giving the granted cells back raised %r' % e)
+        return probs
+    if w._resources['cores'] != list(cores) or w._resources['gpus'] != list(gpus):
+        probs.append('alloc + dealloc does not restore the occupancy: %s -> %s'
+                     % (cores, w._resources['cores']))
+    return probs
+
+
+@builder('raptor/worker_default.py:DefaultWorker._alloc',
+         'raptor/worker_default.py:DefaultWorker._dealloc')
+def worker_alloc(case, rp):
+    import itertools
+    m = case.get('model') or {}
+    res = m.get('self._resources')
+    if isinstance(res, dict) and isinstance(m.get('task'), dict):
+        cores = [c if c in (0, 1) else 0 for c in res.get('cores', []) if isinstance(c, int)]
+        gpus  = [c if c in (0, 1) else 0 for c in res.get('gpus', []) if isinstance(c, int)]
+        task = {k: v for k, v in m['task'].items() if v is not None and k in ('uid', 'cores', 'gpus')}
+        if task.get('gpus', 0) >= 0:
+            probs = check_alloc(rp, cores, gpus, task)
+            if probs:
+                return dict(confirmed=True, detail='; '.join(probs[:3]),
+                            input=dict(cores=cores, gpus=gpus, task=task))
+    n = 0
+    for nc in range(1, 5):
+        for occ in itertools.product((0, 1), repeat=nc):
+            for gocc in ((), (0,), (1, 0)):
+                for want_c in range(1, nc + 1):
+                    for want_g in range(0, len(gocc) + 1):
+                        n += 1
+                        task = {'uid': 't', 'cores': want_c, 'gpus': want_g}
+                        probs = check_alloc(rp, list(occ), list(gocc), task)
+                        if probs:
+                            return dict(confirmed=True, detail='; '.join(probs[:3]),
+                                        input=dict(cores=list(occ), gpus=list(gocc), task=task),
+                                        found_by='small-scope native enumeration (%d cases)' % n)
+    return dict(confirmed=False, detail='model did not reproduce; %d small '
+                'occupancy/request cases hold natively' % n)
